@@ -113,7 +113,9 @@ def restart_with_reloader(error_func=None):
             for line in iter(child_proc.stderr.readline, ''):
                 if not line:
                     break
-                line_text = line.decode('utf8')
+                # whatever the child wrote: undecodable bytes must not
+                # take the reloader (and the failsafe page) down
+                line_text = line.decode('utf8', 'replace')
                 if line_text.startswith(_MON_PREFIX):
                     to_mon[:] = literal_eval(line_text[len(_MON_PREFIX):])
                 else:
